@@ -15,7 +15,10 @@ from .seams import Seams
 
 class WorldA:
     def __init__(self, case: Dict[str, Any], replay: Optional[Dict[str, Any]] = None, keep_log: bool = True):
-        self.case = case
+        import copy
+
+        # a run never mutates the case it was given (the case is what a replay file records)
+        self.case = case = copy.deepcopy(case)
         self.cfg: Dict[str, Any] = case.get("cfg", {})
         self.seed: int = int(case["seed"])
         self.result = RunResult()
@@ -30,6 +33,9 @@ class WorldA:
 
     # -- lifecycle --------------------------------------------------------------------------------------
     def install(self) -> None:
+        from . import client as _client
+
+        _client._uid[0] = 0
         self.seams.quiet_logging()
         self.seams.reset_globals(self.cfg.get("tables"))
         self.seams.install_time(self.clock)
